@@ -927,3 +927,266 @@ Proof.
   - rewrite E1, <- E2. unfold exec_seq. cbn [seq_main seq_bnode obind next_site].
     rewrite !seq_main_NB. rewrite (seq_chain_stateless_sh sh' id_sh). reflexivity.
 Qed.
+
+(* ================= (6) the optimiser on a classified plan ================= *)
+
+(* the passes on chains of basic nodes *)
+Fixpoint fuse_b (bs : list bnode) : list bnode :=
+  match bs with
+  | [] => []
+  | BStateless ops :: r =>
+      match fuse_b r with
+      | BStateless ops' :: r' => BStateless (ops ++ ops') :: r'
+      | fr => BStateless ops :: fr
+      end
+  | b :: r => b :: fuse_b r
+  end.
+
+Fixpoint lift_b (bs : list bnode) : list bnode :=
+  match bs with
+  | BGroupByKey _ _ :: ((BCombineValues cb tp tg tout true :: r) as tl) =>
+      BCombineValues cb tp tg tout false :: lift_b r
+  | b :: r => b :: lift_b r
+  | [] => []
+  end.
+
+Lemma fuse_map_NB : forall bs, fuse (map NB bs) = map NB (fuse_b bs).
+Proof.
+  induction bs as [|b r IH]; [reflexivity|].
+  destruct b as [s|ops|tin tout|cb tp tg tout lg|cb lifted tin tout fanout|t pl];
+    cbn [map fuse fuse_b]; rewrite IH; try reflexivity.
+  destruct (fuse_b r) as [|b' r']; [reflexivity|]. destruct b'; reflexivity.
+Qed.
+
+Lemma lift_b_cons_other : forall b l,
+    (match b with BGroupByKey _ _ => False | _ => True end) -> lift_b (b :: l) = b :: lift_b l.
+Proof. intros b l Hb. destruct b; try contradiction; reflexivity. Qed.
+
+Lemma lift_map_NB_aux : forall bs,
+    lift (map NB bs) = map NB (lift_b bs) /\
+    forall b, lift (map NB (b :: bs)) = map NB (lift_b (b :: bs)).
+Proof.
+  induction bs as [|x r [IHa IHb]].
+  - split; [reflexivity|]. intros b. destruct b; reflexivity.
+  - split; [apply IHb|]. intros b. specialize (IHb x). cbn [map] in IHb.
+    destruct b as [s|ops|tin tout|cb tp tg tout lg|cb lifted tin tout fanout|t pl];
+      try (rewrite lift_b_cons_other by exact I; cbn [map];
+           rewrite lift_only_there by (intros; discriminate); rewrite IHb; reflexivity).
+    destruct x as [s|ops|tin2 tout2|cb tp tg tout2 lg|cb lifted tin2 tout2 fanout|t pl];
+      try (match goal with
+           | |- _ = map NB (lift_b (?g :: ?y :: r)) =>
+               change (lift_b (g :: y :: r)) with (g :: lift_b (y :: r))
+           end;
+           cbn [map]; rewrite lift_only_there by (intros; discriminate); rewrite IHb; reflexivity).
+    destruct lg.
+    + cbn [map lift_b]. rewrite lift_fires, IHa. reflexivity.
+    + change (lift_b (BGroupByKey tin tout :: BCombineValues cb tp tg tout2 false :: r))
+        with (BGroupByKey tin tout :: lift_b (BCombineValues cb tp tg tout2 false :: r)).
+      cbn [map]. rewrite lift_only_there by (intros; discriminate). rewrite IHb. reflexivity.
+Qed.
+
+Lemma lift_map_NB : forall bs, lift (map NB bs) = map NB (lift_b bs).
+Proof. intros bs. apply lift_map_NB_aux. Qed.
+
+Lemma plain_not_mat : forall bs, Forall plainb bs ->
+    forallb (fun n => match n with NB (BMaterialized _ _) => false | _ => true end) (map NB bs)
+    = true.
+Proof.
+  intros bs H. induction H as [|b r Hb Hr IH]; [reflexivity|].
+  cbn [map forallb]. rewrite IH. destruct b; try contradiction; reflexivity.
+Qed.
+
+Definition lift_typed_b (bs : list bnode) : Prop :=
+  forall pre a b cb tp tg tout post,
+    bs = pre ++ BGroupByKey a b :: BCombineValues cb tp tg tout true :: post -> tp = a.
+
+Lemma lift_typed_b_tail : forall x r, lift_typed_b (x :: r) -> lift_typed_b r.
+Proof.
+  intros x r H pre a b cb tp tg tout post Heq.
+  apply (H (x :: pre) a b cb tp tg tout post). cbn [app]. f_equal. exact Heq.
+Qed.
+
+Lemma lift_typed_of_chain : forall (pre0 : list node) bs,
+    (forall pre a b cb tp tg tout post,
+        pre0 ++ map NB bs
+        = pre ++ NB (BGroupByKey a b) :: NB (BCombineValues cb tp tg tout true) :: post -> tp = a) ->
+    lift_typed_b bs.
+Proof.
+  intros pre0 bs H pre a b cb tp tg tout post Heq.
+  apply (H (pre0 ++ map NB pre) a b cb tp tg tout (map NB post)).
+  rewrite Heq, map_app, <- app_assoc. reflexivity.
+Qed.
+
+Lemma opt_gbk_other : forall a b r,
+    (forall cb tp tg tout r2, r <> BCombineValues cb tp tg tout true :: r2) ->
+    lift_b (fuse_b (BGroupByKey a b :: r)) = BGroupByKey a b :: lift_b (fuse_b r).
+Proof.
+  intros a b r Hne. cbn [fuse_b].
+  destruct r as [|x r2]; [reflexivity|].
+  destruct x as [s|ops|tin tout|cb tp tg tout lg|cb lifted tin tout fanout|t pl];
+    try reflexivity.
+  - cbn [fuse_b]. destruct (fuse_b r2) as [|b' r']; [reflexivity|]. destruct b'; reflexivity.
+  - destruct lg; [|reflexivity]. exfalso. exact (Hne cb tp tg tout r2 eq_refl).
+Qed.
+
+Lemma opt_sim : forall n bs t c t' c',
+    length bs <= n -> chain_cls t c bs t' c' -> lift_typed_b bs ->
+    chain_sim t c bs (lift_b (fuse_b bs)) t' c'.
+Proof.
+  induction n as [|n IH]; intros bs t c t' c' Hlen Hcls Hty.
+  - destruct bs as [|b r]; [|cbn [length] in Hlen; lia].
+    inversion Hcls; subst. apply cs_nil.
+  - destruct bs as [|b r]; [inversion Hcls; subst; apply cs_nil|].
+    cbn [length] in Hlen.
+    inversion Hcls as [|t0 c0 b0 t1 c1 r0 t2 c2 Hn Hr]; subst.
+    pose proof (lift_typed_b_tail _ _ Hty) as Hty_r.
+    assert (IHr : chain_sim t1 c1 r (lift_b (fuse_b r)) t' c')
+      by (apply IH; [lia|exact Hr|exact Hty_r]).
+    inversion Hn as [ta ca ops tb Hew Htags | ta tb | ta ca cb tg tb Hlaw | ta ca cb tp tb Hlaw
+                     | ta ca cb lifted tb fanout Hlaw]; subst.
+    + (* element-wise block: fused with the next block, if any *)
+      cbn [fuse_b]. destruct (fuse_b r) as [|b' r'] eqn:Hf.
+      * eapply cs_same; [exact Hn|exact IHr].
+      * destruct b' as [s|ops'|tin tout|cb tp tg tout lg|cb lifted tin tout fanout|tm pl];
+          try (rewrite (lift_b_cons_other (BStateless ops)) by exact I;
+               eapply cs_same; [exact Hn|exact IHr]).
+        rewrite (lift_b_cons_other (BStateless (ops ++ ops'))) by exact I.
+        rewrite (lift_b_cons_other (BStateless ops')) in IHr by exact I.
+        eapply cs_fuse; eassumption.
+    + (* GroupByKey: lifted away when a lifted combine follows *)
+      destruct r as [|x r2].
+      * rewrite opt_gbk_other by (intros; discriminate). eapply cs_same; [exact Hn|exact IHr].
+      * destruct x as [s|ops|tin tout|cb tp tg tout lg|cb lifted tin tout fanout|tm pl];
+          try (rewrite opt_gbk_other by (intros; discriminate);
+               eapply cs_same; [exact Hn|exact IHr]).
+        destruct lg;
+          [|rewrite opt_gbk_other by (intros; discriminate); eapply cs_same; [exact Hn|exact IHr]].
+        inversion Hr as [|t0 c0 b0 t3 c3 r0 t4 c4 Hn2 Hr2]; subst.
+        assert (Htp : tp = t) by (apply (Hty [] t t1 cb tp tg tout r2); reflexivity). subst tp.
+        inversion Hn2 as [| | |ta ca cb' tp' tb Hlaw|]; subst.
+        cbn [fuse_b lift_b]. apply cs_lift; [exact Hlaw|].
+        apply IH; [cbn [length] in Hlen; lia|exact Hr2|].
+        apply (lift_typed_b_tail _ _ Hty_r).
+    + cbn [fuse_b]. rewrite lift_b_cons_other by exact I. eapply cs_same; [exact Hn|exact IHr].
+    + cbn [fuse_b]. rewrite lift_b_cons_other by exact I. eapply cs_same; [exact Hn|exact IHr].
+    + cbn [fuse_b]. rewrite lift_b_cons_other by exact I. eapply cs_same; [exact Hn|exact IHr].
+Qed.
+
+Lemma plan_opt_sim : forall chain t c,
+    plan_cls chain t c -> reorder_noop (fuse chain) ->
+    (forall pre a b cb tp tg tout post,
+        chain = pre ++ NB (BGroupByKey a b) :: NB (BCombineValues cb tp tg tout true) :: post ->
+        tp = a) ->
+    plan_sim chain (optimise chain) t c.
+Proof.
+  intros chain t c Hcls Hnoop Hty. unfold optimise. unfold reorder_noop in Hnoop. rewrite Hnoop.
+  destruct Hcls as [s bs t c Hcoh Hch|s0 lc rc kind tl tr tj bs t c Hcoh Hl Hr Hch].
+  - assert (Htyb : lift_typed_b bs) by (apply (lift_typed_of_chain [NB (BSource s)]); exact Hty).
+    pose proof (opt_sim (length bs) bs _ _ _ _ (le_n _) Hch Htyb) as Hsim.
+    destruct (chain_sim_plain _ _ _ _ _ _ Hsim) as [_ Hpl'].
+    assert (Heq : drop_mid (lift (fuse (NB (BSource s) :: map NB bs)))
+                  = NB (BSource s) :: map NB (lift_b (fuse_b bs))).
+    { change (fuse (NB (BSource s) :: map NB bs)) with (NB (BSource s) :: fuse (map NB bs)).
+      rewrite fuse_map_NB.
+      change (lift (NB (BSource s) :: map NB (fuse_b bs)))
+        with (NB (BSource s) :: lift (map NB (fuse_b bs))).
+      rewrite lift_map_NB. apply drop_mid_identity.
+      cbn [forallb]. apply plain_not_mat. exact Hpl'. }
+    rewrite Heq. apply psim_linear; assumption.
+  - assert (Htyb : lift_typed_b bs)
+      by (apply (lift_typed_of_chain [NB (BSource s0); NCoGroup lc rc kind tl tr tj]); exact Hty).
+    pose proof (opt_sim (length bs) bs _ _ _ _ (le_n _) Hch Htyb) as Hsim.
+    destruct (chain_sim_plain _ _ _ _ _ _ Hsim) as [_ Hpl'].
+    assert (Heq : drop_mid (lift (fuse (NB (BSource s0) :: NCoGroup lc rc kind tl tr tj :: map NB bs)))
+                  = NB (BSource s0) :: NCoGroup lc rc kind tl tr tj :: map NB (lift_b (fuse_b bs))).
+    { change (fuse (NB (BSource s0) :: NCoGroup lc rc kind tl tr tj :: map NB bs))
+        with (NB (BSource s0) :: NCoGroup lc rc kind tl tr tj :: fuse (map NB bs)).
+      rewrite fuse_map_NB.
+      change (lift (NB (BSource s0) :: NCoGroup lc rc kind tl tr tj :: map NB (fuse_b bs)))
+        with (NB (BSource s0) :: NCoGroup lc rc kind tl tr tj :: lift (map NB (fuse_b bs))).
+      rewrite lift_map_NB. apply drop_mid_identity.
+      cbn [forallb]. apply plain_not_mat. exact Hpl'. }
+    rewrite Heq. apply psim_join; assumption.
+Qed.
+
+Lemma optimise_sound : forall sh sh' chain t c parts,
+    perm_oracle sh -> perm_oracle sh' -> plan_cls chain t c -> reorder_noop (fuse chain) ->
+    (forall pre a b cb tp tg tout post,
+        chain = pre ++ NB (BGroupByKey a b) :: NB (BCombineValues cb tp tg tout true) :: post ->
+        tp = a) ->
+    exists r1 r2 r3 r4,
+      exec_seq sh t (optimise chain) = Ok r1 /\ exec_seq sh' t chain = Ok r2 /\
+      exec_par sh t (optimise chain) parts = Ok r3 /\ exec_par sh' t chain parts = Ok r4 /\
+      rel c r1 r2 /\ rel c r3 r4.
+Proof.
+  intros sh sh' chain t c parts Hsh Hsh' Hcls Hnoop Hty.
+  pose proof (plan_opt_sim chain t c Hcls Hnoop Hty) as Hsim.
+  destruct (plan_sim_sound sh' sh chain (optimise chain) t c None None Hsh' Hsh Hsim)
+    as (r2 & r1 & E2 & E1 & Hrel12).
+  destruct (plan_sim_sound sh' sh chain (optimise chain) t c (Some parts) (Some parts) Hsh' Hsh Hsim)
+    as (r4 & r3 & E4 & E3 & Hrel34).
+  cbn [exec_mode] in *.
+  exists r1, r2, r3, r4. repeat split; try assumption; apply rel_sym; assumption.
+Qed.
+
+(* ================= (7) a concrete plan in the fragment ================= *)
+
+Definition example_plan : list node :=
+  plan (SrcVec TKV [VPair (VInt 1%Z) (VInt 10%Z); VPair (VInt 2%Z) (VInt 20%Z);
+                    VPair (VInt 1%Z) (VInt 11%Z)])
+       [SJoin JLeft [SMapValues (FAdd 1%Z)] [VPair (VInt 1%Z) (VInt 7%Z)];
+        SCombineValues CCount; SUnkey; SCombineGlobally CCount false (Some 1)].
+
+Lemma count_lawful : lawful_vcomb (comb_of CCount).
+Proof.
+  exists (fun (a : Z) (m : list val) => a = Z.of_nat (length m)).
+  exists (fun (m : list val) (o : val) => o = VInt (Z.of_nat (length m))).
+  split; [|split].
+  - constructor; cbn [comb_of vc_c vc_A comb_count c_create c_add c_merge c_finish c_build].
+    + reflexivity.
+    + intros a m v ->. cbn [length]. lia.
+    + intros a b m m' -> ->. rewrite app_length. lia.
+    + intros vs. reflexivity.
+    + intros a m m' -> Hp. rewrite (Permutation_length Hp). reflexivity.
+    + intros a m ->. reflexivity.
+  - intros m o o' -> ->. reflexivity.
+  - intros m m' o Hp ->. rewrite (Permutation_length Hp). reflexivity.
+Qed.
+
+Lemma ew_map : forall i o f uid, ew (op_map i o f uid).
+Proof. intros i o f uid. exists (fun x => [f x]). intros l. cbn. rewrite flat_map_single. reflexivity. Qed.
+Lemma ew_map_values : forall i o f uid, ew (op_map_values i o f uid).
+Proof.
+  intros i o f uid. exists (fun x => [on_snd f x]). intros l. cbn. rewrite flat_map_single.
+  reflexivity.
+Qed.
+
+Lemma example_plan_classified : exists chain t c, plan_cls chain t c /\ chain = example_plan.
+Proof.
+  assert (Heq :
+    example_plan =
+    NB (BSource (vec_source TDUMMY [VInt 0%Z]))
+    :: NCoGroup [SB (BSource (vec_source TKV [VPair (VInt 1%Z) (VInt 10%Z); VPair (VInt 2%Z) (VInt 20%Z);
+                                             VPair (VInt 1%Z) (VInt 11%Z)]))]
+                [SB (BSource (vec_source TKV [VPair (VInt 1%Z) (VInt 7%Z)]));
+                 SB (BStateless [op_map_values TKV TKV (ef (FAdd 1%Z)) 150])]
+                JLeft TKV TKV TJL
+    :: map NB [BStateless [op_map TJL TKV join_norm 151];
+               BCombineValues (comb_of CCount) TKV TKG TKV false;
+               BStateless [op_map TKV TU (fun x => x) 152];
+               BCombineGlobal (comb_of CCount) false TU TU (Some 1)])
+    by (vm_compute; reflexivity).
+  exists example_plan, TU, E. split; [|reflexivity]. rewrite Heq.
+  apply pc_join.
+  - apply vec_source_coherent.
+  - eexists. exists [], E. split; [reflexivity|]. split; [apply vec_source_coherent|apply cc_nil].
+  - eexists. exists [BStateless [op_map_values TKV TKV (ef (FAdd 1%Z)) 150]], E.
+    split; [reflexivity|]. split; [apply vec_source_coherent|].
+    eapply cc_cons; [|apply cc_nil].
+    apply nc_stateless; [repeat constructor; apply ew_map_values|reflexivity].
+  - eapply cc_cons; [apply nc_stateless; [repeat constructor; apply ew_map|reflexivity]|].
+    eapply cc_cons; [apply nc_cv_pairs; apply count_lawful|].
+    eapply cc_cons; [apply nc_stateless; [repeat constructor; apply ew_map|reflexivity]|].
+    eapply cc_cons; [apply nc_cg; apply count_lawful|].
+    apply cc_nil.
+Qed.
